@@ -1799,6 +1799,10 @@ def cases(rng, tier):
     for i, ops in enumerate(COMP_CORPUS):
         out.append(dict(kind="comp", seed=i, ops=ops))
     out.extend(MCOMP_CORPUS)
+    # one record delivered far behind the others (more phases early than any plausible reorder window)
+    for nfar, late, dl in ([(12, 0, True), (40, 0, True), (70, 3, False), (150, 0, True)] if tier == "quick" else
+                           [(12, 0, True), (40, 0, True), (40, 7, False), (70, 3, False), (150, 0, True), (300, 1, True), (1100, 0, True)]):
+        out.append(dict(kind="farahead", n=nfar, late=late, delegB=dl))
     m = 1 if tier == "quick" else 12
     for i in range(140 * m):
         out.append(dict(kind="comp", seed=rng.randrange(10**6), ops=gen_comp(rng, adversarial=(i % 3 == 2))))
@@ -1879,7 +1883,54 @@ def cases(rng, tier):
     return out
 
 
+def run_farahead(case):
+    """A message that arrives `gap` or more phases EARLY (the server delays one stored record while delivering the `n - 1`
+    others, or replays out of order after a re-open): whatever holds early phases back must hold them by their phase
+    number, however far ahead they are.  Scripted on two real clients: the peer submits `n` numbered records, the server
+    hands the receiver all of them except record `late` first, then `late`, then one more."""
+    from ..worlds.mailbox import World
+    from wormhole.util import bytes_to_dict
+    n, late = case["n"], case.get("late", 0)
+    viol = []
+    with World(seed=case.get("seed", 0)) as W:
+        a = W.add_client(delegated=True)
+        b = W.add_client(delegated=bool(case.get("delegB", True)))
+        code = "3-farahead-reorder"
+        for ci in (0, 1):
+            W.do(["api", ci, "set_code", code]); W.do(["open", ci])
+        W.settle()
+        sent = []
+        for i in range(n):
+            W.do(["api", 0, "send", "%04x" % i]); sent.append("%04x" % i)
+        while a.conn is not None and a.conn.c2s:
+            W.do(["c2s", 0])
+        # b's inbound queue now holds the n records in submission order: the record of phase `late` goes last
+        q = b.conn.s2c
+        frames = list(q)
+        held = [f for f in frames if bytes_to_dict(f).get("type") == "message" and bytes_to_dict(f).get("phase") == str(late)
+                and bytes_to_dict(f).get("side") == a.side]
+        rest = [f for f in frames if f not in held]
+        q.clear(); q.extend(rest + held)
+        if not b.delegated:
+            for _ in range(n + 1):
+                W.do(["api", 1, "get_message"])
+        W.settle()
+        W.do(["api", 0, "send", "ffff"]); sent.append("ffff")
+        W.settle()
+        got = [v for nm, v in b.events if nm == "message"]
+        if got != sent:
+            bad = next((i for i in range(min(len(got), len(sent))) if got[i] != sent[i]), min(len(got), len(sent)))
+            viol.append(("e2e-prefix", f"{n} records submitted, record {late} delivered last by the server: the application received "
+                         f"{len(got)} records, first difference at #{bad}: got {got[bad:bad + 3]}, sent {sent[bad:bad + 3]}"))
+        for c in (a, b):
+            for ent in c.internal:
+                viol.append(("internal:" + ent[0], f"far-ahead delivery: internal failure {ent}"))
+    return Result([], [], viol, ["farahead:n=%d" % n, "farahead:held=%d" % len(held)], bool(held))
+
+
 def run_case(case):
+    if case["kind"] == "farahead":
+        return run_farahead(case)
     if case["kind"] == "comp":
         return run_comp(case)
     if case["kind"] == "mcomp":
